@@ -193,6 +193,41 @@ std::string opRouteNf(const std::vector<std::string>& w)
     return statusAndBody(r) + " tables=" + std::to_string(srv.tables());
 }
 
+// routeall <METHOD> <hexpath>: a router with routes for EVERY method (HEAD, TRACE and CONNECT included, which have no or little
+// support in the Routes:: helpers): /one/<method>/:tag for that method only, /ht/:tag for HEAD and TRACE, /gh/:tag for GET and HEAD,
+// /all/:tag for all nine
+std::string opRouteAll(const std::vector<std::string>& w)
+{
+    if (w.size() != 3) return "bad-op";
+    std::string path; if (!fromHex(w[2], path)) return "bad-op";
+    static std::unique_ptr<Http::Endpoint> ep; static uint16_t port = 0;
+    if (!ep) {
+        ep.reset(new Http::Endpoint(Address("127.0.0.1", Port(0))));
+        ep->init(Http::Endpoint::options().threads(1).flags(Tcp::Options::ReuseAddr));
+        Rest::Router router;
+        struct M { Http::Method m; const char* up; const char* low; };
+        static const M ms[] = { { Http::Method::Options, "OPTIONS", "options" }, { Http::Method::Get, "GET", "get" }, { Http::Method::Post, "POST", "post" },
+            { Http::Method::Head, "HEAD", "head" }, { Http::Method::Put, "PUT", "put" }, { Http::Method::Patch, "PATCH", "patch" },
+            { Http::Method::Delete, "DELETE", "delete" }, { Http::Method::Trace, "TRACE", "trace" }, { Http::Method::Connect, "CONNECT", "connect" } };
+        for (const M& e : ms) {
+            std::string up = e.up;
+            auto h = [up](const Rest::Request& req, Http::ResponseWriter wr) { wr.send(Http::Code::Ok, up + ":" + req.param(":tag").as<std::string>()); return Rest::Route::Result::Ok; };
+            router.addRoute(e.m, std::string("/one/") + e.low + "/:tag", h);
+            if (up == "HEAD" || up == "TRACE") router.addRoute(e.m, "/ht/:tag", h);
+            if (up == "GET" || up == "HEAD") router.addRoute(e.m, "/gh/:tag", h);
+            router.addRoute(e.m, "/all/:tag", h);
+        }
+        ep->setHandler(router.handler());
+        ep->serveThreaded();
+        port = static_cast<uint16_t>(ep->getPort());
+    }
+    int fd = connectTo(port); if (fd < 0) return "connect-failed";
+    sendAll(fd, w[1] + " " + path + " HTTP/1.1\r\nHost: h\r\n\r\n");
+    std::string buf; std::string r = readOne(fd, buf, 500);
+    ::close(fd);
+    return statusAndBody(r);
+}
+
 // routep <hexpath>: GET against a router whose handlers report what the Rest::Request accessors give them: param() of two parameters
 // whose names share a prefix, hasParam() of a present name, of an absent one and of a proper prefix of a present one, splat() / splatAt()
 std::string opRouteP(const std::vector<std::string>& w)
@@ -327,5 +362,6 @@ int main()
     ops["routenf"] = opRouteNf;
     ops["routep"] = opRouteP;
     ops["mt"] = opMt;
+    ops["routeall"] = opRouteAll;
     return runLoop(ops, 60);
 }
